@@ -121,6 +121,8 @@ pub struct Profile {
     /// up to this many empty blocks (chosen by the plan's configuration bytes) are sealed, with the monitor
     /// attached, before the first step, so that histories reach larger heights
     pub lead_blocks: u8,
+    /// off mainnet, histories begin with a faucet that hands the wallet SYM, ERG, a new token and a few small MEL coins
+    pub seed_funds: bool,
 }
 
 impl Profile {
@@ -144,6 +146,7 @@ impl Profile {
             header_covenants: true,
             mempool: true,
             lead_blocks: 0,
+            seed_funds: false,
         }
     }
 }
@@ -746,14 +749,24 @@ impl<'a> Builder<'a> {
                 additional_data: adata(tp.data),
             });
         }
-        let mel_slots = self.change_outputs(&mut tx, tp, &totals, &BTreeMap::new());
+        // now and then split off a small MEL coin: liquidity withdrawals need a coin they can spend entirely on fees
+        let mut reserved = BTreeMap::new();
+        let mut fixed_mel = 0u128;
+        let mel_in = *totals.get(&Denom::Mel).unwrap_or(&0);
+        let nugget = (3000u128.saturating_mul(self.mult) >> 16).saturating_mul(8).max(50_000_000);
+        if tp.fee % 4 == 1 && mel_in > nugget.saturating_mul(1000) {
+            tx.outputs.push(CoinData { covhash: CovSpec::True.hash(), value: CoinValue(nugget), denom: Denom::Mel, additional_data: Default::default() });
+            reserved.insert(Denom::Mel, nugget);
+            fixed_mel = nugget;
+        }
+        let mel_slots = self.change_outputs(&mut tx, tp, &totals, &reserved);
         tx.data = match tp.data % 8 {
             0..=4 => Default::default(),
             5 => vec![tp.data; 7].into(),
             6 => b"s".to_vec().into(),
             _ => vec![0x5a; 300].into(),
         };
-        Some(self.finish(tx, inputs, tp, &mel_slots, 0))
+        Some(self.finish(tx, inputs, tp, &mel_slots, fixed_mel))
     }
 
     fn build_faucet(&mut self, tp: &TxPlan) -> Option<Built> {
@@ -901,14 +914,23 @@ impl<'a> Builder<'a> {
         }
         let (i, k) = found?;
         let liq = self.avail.remove(i);
-        // a small MEL coin pays the fee in full (a withdrawal has exactly one output)
+        // a small MEL coin pays the fee in full (a withdrawal has exactly one output): the smallest one that covers
+        // a generous estimate of the minimum fee, never a coin that holds most of the wallet's MEL
+        let estimate = 3000u128.saturating_mul(self.mult) >> 16;
         let mut best: Option<usize> = None;
         for (j, c) in self.avail.iter().enumerate() {
-            if c.cdh.coin_data.denom == Denom::Mel && c.cdh.coin_data.value.0 <= MAX_COINVAL {
-                if best.map_or(true, |b| c.cdh.coin_data.value.0 < self.avail[b].cdh.coin_data.value.0 && c.cdh.coin_data.value.0 > 200_000_000) {
+            let v = c.cdh.coin_data.value.0;
+            if c.cdh.coin_data.denom == Denom::Mel && v <= MAX_COINVAL && v >= estimate && v <= estimate.saturating_mul(1000).max(1u128 << 44) {
+                if best.map_or(true, |b| v < self.avail[b].cdh.coin_data.value.0) {
                     best = Some(j);
                 }
             }
+        }
+        if best.is_none() {
+            // no suitable fee coin: give the liquidity coin back and let the caller fall back to an ordinary
+            // transaction (which splits coins)
+            self.avail.push(liq);
+            return None;
         }
         let mut inputs = vec![liq.clone()];
         if let Some(j) = best {
@@ -1345,6 +1367,23 @@ pub fn run_plan(plan: &Plan, profile: &Profile, mon: &mut dyn Monitor, st: &mut 
             snap = w.snap();
         }
     }
+    if profile.seed_funds && w.net != NetID::Mainnet {
+        let mut tx = Transaction::new(TxKind::Faucet);
+        let t = CovSpec::True.hash();
+        for (d, v) in [(Denom::Sym, 1u128 << 70), (Denom::Erg, 1u128 << 70), (Denom::NewCustom, 1u128 << 70), (Denom::Sym, 1u128 << 40), (Denom::Erg, 1u128 << 40)] {
+            tx.outputs.push(CoinData { covhash: t, value: CoinValue(v), denom: d, additional_data: Default::default() });
+        }
+        let nugget = (3000u128.saturating_mul(snap.fee_mult) >> 16).saturating_mul(8).max(50_000_000).min(1u128 << 100);
+        for _ in 0..4 {
+            tx.outputs.push(CoinData { covhash: t, value: CoinValue(nugget), denom: Denom::Mel, additional_data: Default::default() });
+        }
+        tx.data = b"seed funds".to_vec().into();
+        tx.fee = CoinValue((20_000u128.saturating_mul(snap.fee_mult) >> 16).min(1u128 << 110));
+        let meta = TxMeta { kind: "faucet".into(), mutation: None, valid_by_construction: true, spends_batch_output: false, spelling: None, pool: None };
+        if !apply_and_observe(&mut w, &mut snap, vec![tx], vec![meta], mon, st, &mut txs_in_block)? {
+            return mon.on_end(&w, st);
+        }
+    }
     if profile.lead_blocks > 0 {
         let n = (plan.cfg.cov as u32 * 7 + plan.cfg.denom as u32) % (profile.lead_blocks as u32 + 1);
         for _ in 0..n {
@@ -1702,8 +1741,10 @@ pub fn teleport_target(net: NetID, cur: u64, c: u8) -> Option<u64> {
         NetID::Testnet => Some(499u64),
         _ => None,
     };
+    // `cur` is the height of the block being built. The one-off initialisation happens when block b+1 is opened, and
+    // a jump re-bases the last *sealed* state, so that one must already be past it: cur >= b+2
     if let Some(b) = barrier {
-        if cur < b && t > b {
+        if cur <= b + 1 && t > b {
             t = b;
         }
     }
@@ -1712,7 +1753,7 @@ pub fn teleport_target(net: NetID, cur: u64, c: u8) -> Option<u64> {
         Some(t)
     } else {
         // the next boundary above the current height
-        list.iter().copied().find(|x| *x > cur + 1).filter(|x| barrier.map_or(true, |b| !(cur < b && *x > b)))
+        list.iter().copied().find(|x| *x > cur + 1).filter(|x| barrier.map_or(true, |b| !(cur <= b + 1 && *x > b)))
     }
 }
 
